@@ -19,6 +19,12 @@ mod common;
 pub mod config;
 mod workers;
 
+#[cfg(feature = "verif")]
+pub mod verif {
+    pub use crate::workers::socket::verif::*;
+    pub use crate::workers::swarm::verif::*;
+}
+
 pub const APP_NAME: &str = "aquatic_http: HTTP BitTorrent tracker";
 pub const APP_VERSION: &str = env!("CARGO_PKG_VERSION");
 
